@@ -62,8 +62,13 @@ func (exec *Executor) execUnaryNode(
 		}
 
 		st, err := exec.executeNestedBoolItem(ctx, node.Operand(), value)
+		if err != nil {
+			// Not a predicate outcome but an error that cannot be suppressed,
+			// such as a missing variable or a canceled context.
+			return statusFailed, err
+		}
 		if st != predTrue {
-			return statusNotFound, err
+			return statusNotFound, nil
 		}
 		return exec.executeNextItem(ctx, node, nil, value, found)
 	case ast.UnaryPlus:
